@@ -180,7 +180,6 @@ class Process(multiprocessing.Process):
                 while not process.queue.empty():
                     result = process.queue.get()
                     if isinstance(result, Exception):
-                        process_count += 1
                         logger.exception(result)
                         exception = result
                     process_count += 1
